@@ -321,7 +321,13 @@ pub fn run(ctx: &Ctx, rep: &mut Report) {
         for k in 1..=n {
             let pl = uniq_payload(k as u64);
             if k == bad_at {
-                let mut b = Build::simple(n, k, id, b"B", &pl, 0);
+                // the fragment itself, or (for k > 1) an opener with the same / no id
+                let (hn, hk, hid) = match (k > 1, r.below(3)) {
+                    (true, 1) => (n, 1, id),
+                    (true, 2) => (3, 1, None),
+                    _ => (n, k, id),
+                };
+                let mut b = Build::simple(hn, hk, hid, b"B", &pl, 0);
                 let good = nmea_ref::xor(&b.body());
                 b.cks = Some(good ^ (1 << r.below(8)));
                 let l = b.line();
